@@ -2,9 +2,31 @@
    pkg/engine/logging/logger.go.  Executable; no proofs here.
 
    Listeners are data: each subscribed listener owns a finite queue of reactions; one
-   invocation consumes one reaction (an exhausted queue behaves as [idle]).  A reaction
-   performs nested emissions, then transforms the (mutable) event value, then answers the
-   cancel verdict.  This is what "any listener code" can do that the handlers can observe. *)
+   invocation consumes one reaction (an exhausted queue behaves as [idle]).  A reaction runs a
+   SCRIPT - a list of the component's own operations, executed re-entrantly while the outer
+   [Emit] is still inside its listener loop - then transforms the (mutable) event value, then
+   answers the cancel verdict.  A script operation is any top-level operation: [Emit] on any
+   handler including the one being emitted, [Subscribe] on any handler including the one being
+   emitted, [InitLoggers].  A top-level history is itself just a script run outside any
+   emission.
+
+   Go semantics of the listener loop that re-entrant [Subscribe] makes observable
+   (`for _, listener := range handler.listeners`): the range expression is evaluated once - a
+   slice header (backing array, length n) - and iteration i reads element i of THAT backing
+   array at the time of the iteration.
+   * simple.go: `handler.listeners = append(handler.listeners, listener)` writes index len
+     (>= n) of the same array when the capacity allows, else moves to a new array; either way
+     the indices below n of the array the loop reads are never written.
+   * priority.go / mutable.go / cancel.go (after the repair 5106e78):
+     `n := len(handler.listeners); handler.listeners = append(handler.listeners[:n:n], pl)`
+     ALWAYS moves to a new array, which `sort.Sort` then sorts; a running loop keeps the
+     array it started with.  (Before the repair the append reused spare capacity and the sort
+     permuted the array under the running loop: corpus case
+     reentrant_subscribe_disturbs_running_emit.)
+   The model carries a generation number of the backing array per handler and the frozen
+   contents of abandoned arrays; the capacity only for simple handlers (growth of the Go 1.23
+   runtime, growslice + size classes, 8-byte elements).  Nothing a listener can do changes an
+   array below its length: that is what the proofs establish and the delivery clause needs. *)
 From Coq Require Import List ZArith Bool.
 Import ListNotations.
 Open Scope Z_scope.
@@ -15,14 +37,34 @@ Inductive xform := XAdd (k : Z) | XMul (k : Z) | XSet (k : Z).
 Definition apply_x (x : xform) (v : Z) : Z :=
   match x with XAdd k => v + k | XMul k => v * k | XSet k => k end.
 
-Record reaction := mkR { r_x : xform; r_cancel : bool; r_nested : list (nat * Z) }.
+(* operations of the component = operations of a listener script *)
+Inductive op :=
+| OSub (h : nat) (prio : Z) (rs : list reaction)
+| OEmit (h : nat) (v : Z)
+| OInit (lgs : list Z)
+with reaction := mkR (x : xform) (c : bool) (acts : list op).
+
+Definition r_x (r : reaction) := match r with mkR x _ _ => x end.
+Definition r_cancel (r : reaction) := match r with mkR _ c _ => c end.
+Definition r_acts (r : reaction) := match r with mkR _ _ a => a end.
 Definition idle : reaction := mkR (XAdd 0) false [].
 
 Record listener := mkL { l_id : Z; l_prio : Z }.
-Record handler := mkH { h_kind : hkind; h_ls : list listener }.
+
+(* handler.listeners: current contents, capacity, generation of the backing array, and the
+   frozen contents of the arrays it has moved away from *)
+Record handler := mkH {
+  h_kind : hkind;
+  h_ls : list listener;
+  h_cap : nat;
+  h_gen : nat;
+  h_old : list (nat * list listener) }.
 
 Inductive item :=
+| IEmit (h : nat) (v : Z)                      (* Emit on handler h entered *)
 | ICall (lid : Z) (h : nat) (v : Z)            (* listener lid of handler h invoked, sees v *)
+| ISub (lid : Z) (h : nat) (prio : Z)          (* Subscribe returned (top level or in a listener) *)
+| IInit (lgs : list Z)                         (* InitLoggers returned *)
 | ILog (lg : Z) (h : nat) (v : Z) (c : bool)   (* logger lg receives the event of handler h *)
 | IRet (h : nat) (c : bool) (v : Z).           (* Emit on handler h returns *)
 
@@ -33,9 +75,27 @@ Record world := mkW {
   next_id : Z;
   trace : list item }.
 
-(* ---- structured record of one emission (specification side) ---- *)
-Inductive frame := Frame (h : nat) (vin : Z) (calls : list call) (vout : Z) (c : bool)
-with call := Call (l : listener) (vseen : Z) (r : reaction) (subs : list frame).
+(* outcomes that are not a normal result *)
+Inductive err :=
+| OutOfFuel        (* nesting deeper than the fuel *)
+| BadHandler       (* operation on a handler index that does not exist (harness panics) *)
+| Stuck            (* the listener loop read outside its backing array: proved unreachable (run_never_stuck) *)
+| CapUnmodelled.   (* more listeners on a SIMPLE handler than the transcribed growth table covers *)
+Inductive res (A : Type) := Ok (a : A) | Err (e : err).
+Arguments Ok {A} a.
+Arguments Err {A} e.
+
+(* ---- structured record of what happened (specification side) ---- *)
+Inductive frame :=
+  Frame (h : nat) (k : hkind)                 (* handler, its kind *)
+        (ls0 : list listener)                  (* handler.listeners when Emit was entered *)
+        (vin : Z) (calls : list call) (vout : Z) (c : bool)
+        (lgs : list Z)                         (* loggers registered when the emission completed *)
+with call := Call (l : listener) (vseen : Z) (r : reaction) (kids : list child)
+with child :=
+| CFrame (fr : frame)
+| CSub (h : nat) (l : listener)                (* Subscribe of l to handler h returned *)
+| CInit (lgs : list Z).
 
 Definition kind_eqb (a b : hkind) : bool :=
   match a, b with
@@ -64,74 +124,59 @@ Definition set_reacts (w : world) (rs : list (Z * list reaction)) : world :=
 Definition log_items (lgs : list Z) (h : nat) (v : Z) (c : bool) : list item :=
   map (fun lg => ILog lg h v c) lgs.
 
-Definition emitter := world -> nat -> Z -> option (world * bool * Z * frame).
-
-Fixpoint nested (E : emitter) (w : world) (ns : list (nat * Z)) : option (world * list frame) :=
-  match ns with
-  | [] => Some (w, [])
-  | (h, v) :: ns' =>
-      match E w h v with
-      | None => None
-      | Some (w1, _, _, fr) =>
-          match nested E w1 ns' with
-          | None => None
-          | Some (w2, frs) => Some (w2, fr :: frs)
-          end
-      end
+(* ---- backing arrays ---- *)
+Fixpoint lookup_arr (g : nat) (old : list (nat * list listener)) : option (list listener) :=
+  match old with
+  | [] => None
+  | (g', a) :: rest => if Nat.eqb g g' then Some a else lookup_arr g rest
   end.
 
-(* the `for _, listener := range handler.listeners` loop of the four Emit bodies *)
-Fixpoint deliver (E : emitter) (k : hkind) (h : nat) (w : world) (ls : list listener) (v : Z)
-  : option (world * bool * Z * list call) :=
-  match ls with
-  | [] => Some (w, false, v, [])
-  | l :: rest =>
-      let w1 := add_trace w [ICall (l_id l) h v] in
-      let (r, rs') := pop (reacts w1) (l_id l) in
-      let w2 := set_reacts w1 rs' in
-      match nested E w2 (r_nested r) with
-      | None => None
-      | Some (w3, subs) =>
-          let v' := if kind_eqb k KMutable then apply_x (r_x r) v else v in
-          let cl := Call l v r subs in
-          if kind_eqb k KCancel && r_cancel r then Some (w3, true, v', [cl])
-          else match deliver E k h w3 rest v' with
-               | None => None
-               | Some (w4, c, v'', cls) => Some (w4, c, v'', cl :: cls)
-               end
-      end
-  end.
+(* contents (indices below the handler's length at the time) of array generation g *)
+Definition arr (hd : handler) (g : nat) : option (list listener) :=
+  if Nat.eqb g (h_gen hd) then Some (h_ls hd)
+  else if Nat.ltb g (h_gen hd) then lookup_arr g (h_old hd)
+  else None.
 
-Fixpoint emit (fuel : nat) : emitter :=
-  match fuel with
-  | O => fun _ _ _ => None
-  | S f => fun w h v =>
-      match nth_error (hs w) h with
-      | None => None
-      | Some hd =>
-          match deliver (emit f) (h_kind hd) h w (h_ls hd) v with
-          | None => None
-          | Some (w1, c, v', cls) =>
-              (* exactly one logging.Log on every path, after the loop *)
-              Some (add_trace w1 (log_items (loggers w1) h v' c ++ [IRet h c v']), c, v',
-                    Frame h v cls v' c)
-          end
-      end
-  end.
+(* runtime.growslice for one appended 8-byte element, Go 1.23, amd64: doubling below 256
+   elements, rounded to the allocator's size class (64 -> 143: a malloc header of 8 bytes for
+   pointerful blocks above 512 bytes).  Only simple handlers append into spare capacity. *)
+Definition grow (c : nat) : option nat :=
+  if Nat.eqb c 0 then Some 1%nat
+  else if Nat.leb c 32 then Some (2 * c)%nat
+  else if Nat.eqb c 64 then Some 143%nat
+  else None.
 
-(* Subscribe: simple = append; the others = append + sort.Sort by priority.  For the sizes
-   the correspondence uses exactly (<= 12 listeners per handler) sort.Sort is insertion sort,
-   hence stable, hence the new listener ends after every listener of priority <= its own. *)
+(* the sorting handlers: sort.Sort of a sorted slice plus one appended element.  Up to 12
+   elements it is insertion sort, hence the new listener ends after every listener of
+   priority <= its own; above 12 the correspondence only uses pairwise distinct priorities,
+   where every correct sort gives this result. *)
 Fixpoint insert_prio (l : listener) (ls : list listener) : list listener :=
   match ls with
   | [] => [l]
   | x :: rest => if l_prio l <? l_prio x then l :: ls else x :: insert_prio l rest
   end.
 
-Definition subscribe_h (hd : handler) (l : listener) : handler :=
-  match h_kind hd with
-  | KSimple => mkH KSimple (h_ls hd ++ [l])
-  | k => mkH k (insert_prio l (h_ls hd))
+Definition ins (k : hkind) (l : listener) (ls : list listener) : list listener :=
+  match k with KSimple => ls ++ [l] | _ => insert_prio l ls end.
+
+Definition subscribe_h (hd : handler) (l : listener) : option handler :=
+  let k := h_kind hd in
+  let ls := h_ls hd in
+  match k with
+  | KSimple =>
+      if Nat.ltb (length ls) (h_cap hd) then
+        (* fits: index len of the same backing array is written *)
+        Some (mkH k (ls ++ [l]) (h_cap hd) (h_gen hd) (h_old hd))
+      else
+        match grow (h_cap hd) with
+        | None => None
+        | Some c' =>
+            Some (mkH k (ls ++ [l]) c' (S (h_gen hd)) ((h_gen hd, ls) :: h_old hd))
+        end
+  | _ =>
+      (* append(handler.listeners[:n:n], pl): always a fresh array, then sorted; the old array
+         keeps its contents for whoever still ranges over it (capacity is never consulted) *)
+      Some (mkH k (insert_prio l ls) (h_cap hd) (S (h_gen hd)) ((h_gen hd, ls) :: h_old hd))
   end.
 
 Fixpoint update_nth {A} (n : nat) (f : A -> A) (l : list A) : list A :=
@@ -141,66 +186,153 @@ Fixpoint update_nth {A} (n : nat) (f : A -> A) (l : list A) : list A :=
   | x :: r, S n' => x :: update_nth n' f r
   end.
 
-Inductive op :=
-| OSub (h : nat) (prio : Z) (rs : list reaction)
-| OEmit (h : nat) (v : Z)
-| OInit (lgs : list Z).
-
-Definition init (kinds : list hkind) : world :=
-  mkW (map (fun k => mkH k []) kinds) [] [] 0 [].
-
-(* one top-level operation; the frame of a top-level emission is returned with the handler
-   table and logger list it ran under *)
-Definition step (fuel : nat) (w : world) (o : op)
-  : option (world * option (list handler * list Z * frame)) :=
-  match o with
-  | OSub h prio rs =>
+Definition subscribe (w : world) (h : nat) (prio : Z) (rs : list reaction) : res (world * child) :=
+  match nth_error (hs w) h with
+  | None => Err BadHandler
+  | Some hd =>
       let l := mkL (next_id w) prio in
-      Some (mkW (update_nth h (fun hd => subscribe_h hd l) (hs w)) (loggers w)
-                ((next_id w, rs) :: reacts w) (next_id w + 1) (trace w), None)
-  | OEmit h v =>
-      match emit fuel w h v with
-      | None => None
-      | Some (w', _, _, fr) => Some (w', Some (hs w, loggers w, fr))
+      match subscribe_h hd l with
+      | None => Err CapUnmodelled
+      | Some hd' =>
+          Ok (mkW (update_nth h (fun _ => hd') (hs w)) (loggers w)
+                  ((next_id w, rs) :: reacts w) (next_id w + 1)
+                  (trace w ++ [ISub (next_id w) h prio]),
+              CSub h l)
       end
-  | OInit lgs => Some (mkW (hs w) lgs (reacts w) (next_id w) (trace w), None)
   end.
 
-Fixpoint run (fuel : nat) (w : world) (ops : list op)
-  : option (world * list (list handler * list Z * frame)) :=
-  match ops with
-  | [] => Some (w, [])
-  | o :: rest =>
-      match step fuel w o with
-      | None => None
-      | Some (w1, fo) =>
-          match run fuel w1 rest with
-          | None => None
-          | Some (w2, frs) =>
-              Some (w2, match fo with Some x => x :: frs | None => frs end)
+Definition init_loggers (w : world) (lgs : list Z) : world :=
+  mkW (hs w) lgs (reacts w) (next_id w) (trace w ++ [IInit lgs]).
+
+Definition emitter := world -> nat -> Z -> res (world * bool * Z * frame).
+
+(* a script (or a top-level history): the operations one after the other *)
+Fixpoint run_acts (E : emitter) (w : world) (acts : list op) : res (world * list child) :=
+  match acts with
+  | [] => Ok (w, [])
+  | a :: rest =>
+      let step :=
+        match a with
+        | OEmit h v =>
+            match E w h v with
+            | Err e => Err e
+            | Ok (w1, _, _, fr) => Ok (w1, CFrame fr)
+            end
+        | OSub h prio rs => subscribe w h prio rs
+        | OInit lgs => Ok (init_loggers w lgs, CInit lgs)
+        end in
+      match step with
+      | Err e => Err e
+      | Ok (w1, ch) =>
+          match run_acts E w1 rest with
+          | Err e => Err e
+          | Ok (w2, chs) => Ok (w2, ch :: chs)
           end
       end
   end.
 
-(* ---- specification-side functions on frames ---- *)
-Fixpoint flatten (lgs : list Z) (fr : frame) : list item :=
-  match fr with
-  | Frame h vin calls vout c =>
-      flat_map (flatten_call lgs h) calls ++ log_items lgs h vout c ++ [IRet h c vout]
-  end
-with flatten_call (lgs : list Z) (h : nat) (cl : call) : list item :=
-  match cl with
-  | Call l vs r subs => ICall (l_id l) h vs :: flat_map (flatten lgs) subs
+(* the `for _, listener := range handler.listeners` loop of the four Emit bodies: [todo]
+   iterations are left, the next one reads index [i] of array generation [g] of handler [h]
+   AS IT IS NOW *)
+Fixpoint deliver (E : emitter) (k : hkind) (h g : nat) (w : world) (todo i : nat) (v : Z)
+  : res (world * bool * Z * list call) :=
+  match todo with
+  | O => Ok (w, false, v, [])
+  | S todo' =>
+      match nth_error (hs w) h with
+      | None => Err Stuck
+      | Some hd =>
+          match arr hd g with
+          | None => Err Stuck
+          | Some a =>
+              match nth_error a i with
+              | None => Err Stuck
+              | Some l =>
+                  let w1 := add_trace w [ICall (l_id l) h v] in
+                  let (r, rs') := pop (reacts w1) (l_id l) in
+                  let w2 := set_reacts w1 rs' in
+                  match run_acts E w2 (r_acts r) with
+                  | Err e => Err e
+                  | Ok (w3, kids) =>
+                      let v' := if kind_eqb k KMutable then apply_x (r_x r) v else v in
+                      let cl := Call l v r kids in
+                      if kind_eqb k KCancel && r_cancel r then Ok (w3, true, v', [cl])
+                      else match deliver E k h g w3 todo' (S i) v' with
+                           | Err e => Err e
+                           | Ok (w4, c, v'', cls) => Ok (w4, c, v'', cl :: cls)
+                           end
+                  end
+              end
+          end
+      end
   end.
 
-(* completion order of the emission forest: (handler, logged value, cancelled) *)
-Fixpoint postorder (fr : frame) : list (nat * Z * bool) :=
+Fixpoint emit (fuel : nat) : emitter :=
+  match fuel with
+  | O => fun _ _ _ => Err OutOfFuel
+  | S f => fun w h v =>
+      match nth_error (hs w) h with
+      | None => Err BadHandler
+      | Some hd =>
+          (* the range expression is evaluated once: array generation and length *)
+          match deliver (emit f) (h_kind hd) h (h_gen hd) (add_trace w [IEmit h v])
+                        (length (h_ls hd)) O v with
+          | Err e => Err e
+          | Ok (w1, c, v', cls) =>
+              (* exactly one logging.Log on every path, after the loop, to the loggers
+                 registered THEN *)
+              Ok (add_trace w1 (log_items (loggers w1) h v' c ++ [IRet h c v']), c, v',
+                  Frame h (h_kind hd) (h_ls hd) v cls v' c (loggers w1))
+          end
+      end
+  end.
+
+Definition init (kinds : list hkind) : world :=
+  mkW (map (fun k => mkH k [] O O []) kinds) [] [] 0 [].
+
+(* a history = a script run at top level *)
+Definition run (fuel : nat) (w : world) (ops : list op) : res (world * list child) :=
+  run_acts (emit fuel) w ops.
+
+(* ---- specification-side functions on the forest ---- *)
+Fixpoint flatten (fr : frame) : list item :=
   match fr with
-  | Frame h vin calls vout c => flat_map postorder_call calls ++ [(h, vout, c)]
+  | Frame h k ls0 vin calls vout c lgs =>
+      IEmit h vin :: flat_map (flatten_call h) calls ++ log_items lgs h vout c ++ [IRet h c vout]
   end
-with postorder_call (cl : call) : list (nat * Z * bool) :=
+with flatten_call (h : nat) (cl : call) : list item :=
   match cl with
-  | Call _ _ _ subs => flat_map postorder subs
+  | Call l vs r kids => ICall (l_id l) h vs :: flat_map flatten_child kids
+  end
+with flatten_child (ch : child) : list item :=
+  match ch with
+  | CFrame fr => flatten fr
+  | CSub h l => [ISub (l_id l) h (l_prio l)]
+  | CInit lgs => [IInit lgs]
+  end.
+
+(* what happened, in order: emission entered (with the listeners subscribed then), listener
+   subscribed, loggers re-registered, emission completed (with the loggers registered then) *)
+Inductive ev :=
+| EStart (h : nat) (ls0 : list listener)
+| ESub (h : nat) (l : listener)
+| EInit (lgs : list Z)
+| EDone (h : nat) (v : Z) (c : bool) (lgs : list Z).
+
+Fixpoint events (fr : frame) : list ev :=
+  match fr with
+  | Frame h k ls0 vin calls vout c lgs =>
+      EStart h ls0 :: flat_map events_call calls ++ [EDone h vout c lgs]
+  end
+with events_call (cl : call) : list ev :=
+  match cl with
+  | Call _ _ _ kids => flat_map events_child kids
+  end
+with events_child (ch : child) : list ev :=
+  match ch with
+  | CFrame fr => events fr
+  | CSub h l => [ESub h l]
+  | CInit lgs => [EInit lgs]
   end.
 
 Definition log_of (lg : Z) (tr : list item) : list (nat * Z * bool) :=
@@ -208,11 +340,21 @@ Definition log_of (lg : Z) (tr : list item) : list (nat * Z * bool) :=
                       | ILog lg' h v c => if lg' =? lg then [(h, v, c)] else []
                       | _ => [] end) tr.
 
+(* every frame of a forest *)
+Fixpoint all_frames (fr : frame) : list frame :=
+  fr :: match fr with
+        | Frame _ _ _ _ calls _ _ _ => flat_map all_frames_call calls
+        end
+with all_frames_call (c : call) : list frame :=
+  match c with Call _ _ _ kids => flat_map all_frames_child kids end
+with all_frames_child (ch : child) : list frame :=
+  match ch with CFrame fr => all_frames fr | _ => [] end.
+
 (* what a listener's invocations look like in one frame *)
 Definition call_l (c : call) := match c with Call l _ _ _ => l end.
 Definition call_v (c : call) := match c with Call _ v _ _ => v end.
 Definition call_r (c : call) := match c with Call _ _ r _ => r end.
-Definition call_subs (c : call) := match c with Call _ _ _ s => s end.
+Definition call_kids (c : call) := match c with Call _ _ _ s => s end.
 
 (* value after a call, as the next listener must see it *)
 Definition after_call (k : hkind) (c : call) : Z :=
